@@ -3,7 +3,7 @@
    run guarantees, that the library's own path check and status constructor mean what the rule assumes, and that the
    single-tree planner skeleton can only produce admissible reports — for every history of extension attempts. *)
 From Coq Require Import List ZArith Bool Floats.
-From OmplV Require Import LedgerModel LedgerProofs MotionModel MotionProofs EitModel EitProofs RrtModel RrtProofs RrtConnectModel RrtConnectProofs LazyRrtModel LazyRrtProofs PdfModel EstModel EstProofs EstFloat.
+From OmplV Require Import LedgerModel LedgerProofs MotionModel MotionProofs EitModel EitProofs RrtModel RrtProofs RrtConnectModel RrtConnectProofs LazyRrtModel LazyRrtProofs PdfModel EstModel EstProofs EstFloat RrtStarModel RrtStarProofs.
 Import ListNotations.
 Local Open Scope Z_scope.
 
@@ -154,6 +154,32 @@ Theorem C01_est_reports_only_real_paths :
   end.
 Proof. exact est_solve_spec. Qed.
 
+(* geometric::RRTstar (RrtStarModel: k-nearest neighbourhoods, parent selection in order of cost with delayed motion checks, rewiring
+   with cost propagation to the descendants, goal motions / best cost / approximate solution, termination on a satisfied objective).
+   FULL STATEMENT wanted for C01: whenever the planner reports a path, the path begins at a start state, every consecutive pair is a
+   motion the validator accepted in the direction it is traversed, and an exact report ends in a state the goal accepts.
+   PROVED (hence _partial), for every objective, validator, neighbourhood size function, tape and sampler: the whole tree consists of
+   such motions after any number of iterations — the rewired ones included —, roots are start states, every consecutive pair of the
+   reported path is one, the path ends in the reported motion and an exact report ends in a goal state.
+   MISSING: that following parents from the reported motion reaches a root (rewiring never closes a cycle); it needs an objective whose
+   motion costs are not negative and the cost argument sketched in RrtStarProofs.v.  On every scripted run the model's tree equals the
+   library's, and the library's reported path is checked to begin at a start state (C01 check, section g). *)
+Theorem C01_rrtstar_reports_only_validated_motions_partial :
+  forall (St C : Type) (dist : St -> St -> C) (clt : C -> C -> bool) (cadd : C -> C -> C) (c0 : C) (mcost : St -> St -> C) (sym : bool) (csat : C -> bool)
+         (steer : St -> St -> St) (maxd : C) (mv : St -> St -> bool) (sat : St -> bool) (gdist : St -> C) (goal_state dflt : St) (bias : C) (kof : nat -> nat)
+         (starts : list St) iters tape samples, starts <> [] ->
+  let res := star_solve St C dist clt cadd c0 mcost sym csat steer maxd mv sat gdist goal_state dflt bias kof starts iters tape samples in
+  RrtStarProofs.EInv St C c0 mv dflt starts (fst res) /\
+  match snd res with
+  | Some (path, approx, dd, stored, opt) =>
+      path <> [] /\ consecutive (fun a b => mv a b = true) path /\
+      (exists i, (i < length (fst res))%nat /\ last path dflt = n_st St C (nd St C c0 dflt (fst res) i) /\ stored = n_cost St C (nd St C c0 dflt (fst res) i)) /\
+      (approx = false -> sat (last path dflt) = true)
+  | None => True
+  end.
+Proof. exact star_solve_partial. Qed.
+
+Print Assumptions C01_rrtstar_reports_only_validated_motions_partial.
 Print Assumptions C01_est_reports_only_real_paths.
 Print Assumptions C01_rlrt_reports_only_real_paths.
 Print Assumptions C01_lazyrrt_reports_only_validated_paths.
